@@ -110,6 +110,25 @@ Theorem C13_checker_hidden : forall side base merged,
             visible (v_heads merged) c = false.
 Proof. exact removed_hidden_spec. Qed.
 
+(** Over a whole operation DAG: what the "nothing rewritten re-appears" test means. *)
+Theorem C13_checker_dag_hidden : forall dag heads merged,
+  dag_removed_hidden dag heads merged = true <->
+  forall h a c, In h heads -> In a (op_ancestors dag [h]) ->
+    visible (v_heads (view_at dag a)) c = true ->
+    visible (v_heads (view_at dag h)) c = false ->
+    visible (v_heads merged) c = true -> divergent_in merged c = true.
+Proof. exact dag_removed_hidden_spec. Qed.
+
+(** [merge_operations] on two heads with one closest common ancestor is the three-way
+    [merge_views] with that ancestor as base (further heads are merged relative to the closest
+    common ancestors of everything merged so far: see [merge_ops]). *)
+Theorem C13_merge_two : forall dag i j a ni nj na fuel,
+  nth_error dag i = Some ni -> nth_error dag j = Some nj -> nth_error dag a = Some na ->
+  cca dag [i] [j] = [a] ->
+  merge_ops (S fuel) dag [i; j]
+  = match merge_views (n_view ni) (n_view na) (n_view nj) with Some v => MOk v | None => MSkip end.
+Proof. exact merge_ops_two. Qed.
+
 Theorem C13_visible_spec : forall heads c,
   visible heads c = true <-> exists h, In h heads /\ suffixb c h = true.
 Proof. exact visible_iff. Qed.
@@ -135,7 +154,25 @@ Example C13_nonvacuous :
      = [Some c2; Some c1; Some [(7, 7); (1, 1)]%N].
 Proof. vm_compute. repeat split. Qed.
 
+(** The nested-ancestor shape (O -> A2; O -> B1 -> B2; B1 -> C2): merging A2, B2, C2 takes B1 as
+    base for the third head, so a bookmark created by B1 and moved by B2 is B2's, unconflicted. *)
+Example C13_nested_ancestor :
+  let x := [(4, 4)]%N in let y := [(5, 5)]%N in
+  let vo := mk_view [[(1, 1)]%N] [] [] in
+  let vb1 := mk_view [[(1, 1)]%N; x] [(0%N, [Some x])] [] in
+  let va2 := mk_view [[(1, 1)]%N; [(3, 3)]%N] [] [] in
+  let vb2 := mk_view [[(1, 1)]%N; x; y] [(0%N, [Some y])] [] in
+  let vc2 := mk_view [[(6, 6); (1, 1)]%N; x] [(0%N, [Some x])] [] in
+  let dag := [mk_node [] 0 vo; mk_node [0%nat] 2 vb1; mk_node [0%nat] 1 va2;
+              mk_node [1%nat] 3 vb2; mk_node [1%nat] 4 vc2] in
+  cca dag [2%nat; 3%nat] [4%nat] = [1%nat]
+  /\ cca dag [2%nat] [4%nat] = [0%nat]
+  /\ merge_ops 6 dag [2%nat; 3%nat; 4%nat]
+     = MOk (mk_view [[(3, 3)]%N; x; y; [(6, 6); (1, 1)]%N] [(0%N, [Some y])] []).
+Proof. vm_compute. repeat split. Qed.
+
 Print Assumptions C13_wc_rule.
+Print Assumptions C13_checker_dag_hidden.
 Print Assumptions C13_bookmark_moves.
 Print Assumptions C13_conflict_not_drop.
 Print Assumptions C13_commits_kept.
